@@ -196,6 +196,26 @@ def c18_noalloc(ctx, seqrun, stats, divs):
     ctx.violation('without the alloc feature (stack buffer, async / sync splits repeated): ' + what.split(': ', 1)[-1][:300],
                   f'## replay: .build/cargo-noalloc/debug/mrb-harness-noalloc {ctx.seed} {n}\n## sessions: {what}\n', no_input=(mm is None))
 
+def c18_splitprobe(ctx, seqrun, stats, divs):
+    """default (alloc) + async configuration: stack buffers split by reference, used, released and split again - by reference or BY VALUE
+    into async iterators (F11); property-level probe harness/src/bin/splitprobe.rs"""
+    bindir, log = ctx.build_harness(('splitprobe',))
+    if bindir is None:
+        ctx.violation('the split probe does not build against the current /repo tree', log[-3000:], no_input=True); return
+    n = 2000 if ctx.tier == 'quick' else 100000
+    rc, out = common.sh([os.path.join(bindir, 'splitprobe'), str(ctx.seed), str(n)], timeout=1800)
+    m = re.search(r'ok sessions=(\d+) byvalue=(\d+)', out)
+    if m:
+        ctx.notes['split_probe'] = {'sessions': int(m.group(1)), 'by_value_async_resplits': int(m.group(2))}; stats.histories += int(m.group(1)); return
+    mm = re.search(r'MISMATCH (.*)', out)
+    what = mm.group(1) if mm else 'probe failed: ' + out[-600:]
+    ctx.violation('stack buffer split again (by reference / by value into async iterators): ' + what.rsplit(': ', 1)[-1][:300],
+                  f'## replay: .build/cargo/debug/splitprobe {ctx.seed} {n}\n## sessions (each [...] is one split and what was done with its iterators): {what}\n', no_input=(mm is None))
+
+def c18_extra(ctx, seqrun, stats, divs):
+    c18_noalloc(ctx, seqrun, stats, divs)
+    c18_splitprobe(ctx, seqrun, stats, divs)
+
 def c04_safe_ops(ctx, seqrun, stats, divs):
     """the sentence `no safe operation moves an iterator past the iterator ahead`: safe methods whose contract fails"""
     for key, lst in sorted(stats.safe_breaks.items()):
@@ -205,11 +225,11 @@ def c04_safe_ops(ctx, seqrun, stats, divs):
                           '\n'.join([h, cfg] + ops) + f'\n## {key}: the last operation is a safe fn, yet its position contract does not hold in this state\n')
     ctx.notes['safe_ops_off_contract'] = {k: len(v) for k, v in stats.safe_breaks.items()}
 CHECKS['C04'].extra = c04_safe_ops
-CHECKS['C18'].extra = c18_noalloc
+CHECKS['C18'].extra = c18_extra
 for pid in ('C01', 'C04', 'C05', 'C06', 'C11', 'C12'):
     CHECKS[pid].propfiles = [f'Props/{pid}.v', 'Props/KTie.v']    # K-tie: kernels translated from the source on every run
-for pid in ('C06', 'C11', 'C12'):
-    CHECKS[pid].with_async = True   # anchors include the async wrappers / AsyncDetached
+for pid in ('C01', 'C04', 'C05', 'C06', 'C11', 'C12', 'C18'):
+    CHECKS[pid].with_async = True   # the async wrappers / AsyncDetached run (and partly re-implement: go_back, advance, sync_index) the same core
 
 
 class VariantCheck(SeqCheck):
